@@ -205,7 +205,17 @@ KWONLY = obj("Kw", F("a", INT, default=V("0")), F("b", STR), dargs="kw_only=True
 FROZEN = obj("Fz", F("a", INT), F("b", lst(STR), default=Fy("list")), dargs="frozen=True")
 SLOTS = obj("Sl", F("a", INT), F("b", opt(INT), default=V("None")), dargs="slots=True")
 
+NZ = newtype("Nz", INT, min=0)
+NTF = obj(
+    "NtF",
+    F("x", NZ, schema=(("max", 5),)),
+    F("y", ann(NZ, max=9), default=V("0")),
+    F("s", newtype("Nls", STR, max_len=0), default=V("''"), schema=(("pattern", "^a"),)),
+)
 OBJECTS: Dict[str, Tuple[Sp, str]] = {
+    "NtField": (NTF, ""),
+    "ann(nt0)": (ann(NZ, max=5), ""),
+    "list0": (ann(lst(INT), max_items=0), ""),
     "A": (A, ""),
     "S2": (S2, ""),
     "S3": (S3, ""),
